@@ -83,6 +83,19 @@ def gen(rng, tier):
             else:
                 ops.append(rng.choice(OPS))
         cases.append({"f": f, "t": t, "opts": o, "ops": ops, "color": False})
+    # the same through the plist loader's wrapper (root edit = an EditCollection over a mapping edit)
+    for k in range(60 if tier == "quick" else 1500):
+        f, t, o = nested_docs[k % len(nested_docs)] if k % 2 else (T.gen_skewed(rng) + ({},))
+        if not isinstance(f, dict):
+            continue
+        ops = []
+        for _ in range(rng.choice([3, 5, 8, 13])):
+            if rng.random() < 0.6:
+                path = ".".join(str(rng.randint(0, 2)) for _ in range(rng.randint(1, 3)))
+                ops.append(f"sub:{path}:{rng.choice(sub_ops)}")
+            else:
+                ops.append(rng.choice(OPS))
+        cases.append({"f": f, "t": t, "opts": o, "ops": ops, "color": False, "plist": True, "no_cli": True})
     for k in range(n // 10):
         a = T.gen_spec(rng)
         b = T.mutate_spec(rng, a) if rng.random() < 0.85 else T.gen_spec(rng)
@@ -257,7 +270,7 @@ def has_dict(x):
 
 
 def in_model_domain(case):
-    if case.get("api"):
+    if case.get("api") or case.get("plist"):
         return False
     if MODEL_MS:
         return True
